@@ -127,6 +127,8 @@ def unquote(string, only_printable=False, unsafe=None, normalize_space=False):
 UNSAFE_FOR_AUTH_ITEM = b" @:/?#%[]"
 UNSAFE_FOR_PATH = b" /?#%"
 UNSAFE_FOR_QUERY_ITEM = b" &=#%"
+# NOTE: an item is split on its first "=" only, "=" is plain text in a value
+UNSAFE_FOR_QUERY_VALUE = b" &#%"
 UNSAFE_FOR_FRAGMENT = b" %"
 
 # NOTE: those method should only be used on parsed urls to canonicalize/normalize.
@@ -139,6 +141,9 @@ safely_unquote_path = partial(
 safely_unquote_query_item = partial(
     unquote, only_printable=True, normalize_space=True, unsafe=UNSAFE_FOR_QUERY_ITEM
 )
+safely_unquote_query_value = partial(
+    unquote, only_printable=True, normalize_space=True, unsafe=UNSAFE_FOR_QUERY_VALUE
+)
 safely_unquote_fragment = partial(
     unquote, only_printable=True, normalize_space=True, unsafe=UNSAFE_FOR_FRAGMENT
 )
@@ -148,7 +153,7 @@ def safely_unquote_qsl(qsl):
     return [
         (
             safely_unquote_query_item(key),
-            safely_unquote_query_item(value) if value is not None else None,
+            safely_unquote_query_value(value) if value is not None else None,
         )
         for key, value in qsl
     ]
@@ -193,6 +198,7 @@ __all__ = [
     "safely_unquote_auth",
     "safely_unquote_path",
     "safely_unquote_query_item",
+    "safely_unquote_query_value",
     "safely_unquote_fragment",
     "safely_unquote_qsl",
     "safely_quote",
